@@ -121,6 +121,10 @@ pub fn check_frame(c: &FrameCase, st: &mut Stats) -> Result<(), String> {
                         if back != frame {
                             return Err(format!("decoding the {name} encoding ({how}) gives a different frame: {back:?}"));
                         }
+                        // equal values hash equally (the frame is usable as a set / map key like any value type)
+                        if h64(&back) != h64(&frame) || h64(&back.clone().into_data()) != h64(&frame.clone().into_data()) {
+                            return Err(format!("the frame decoded from the {name} encoding ({how}) equals the original but hashes differently"));
+                        }
                         if back.address() != Address(c.addr)
                             || back.message_type() != MsgType(c.ty)
                             || back.data().as_ref() != &c.data[..]
@@ -249,6 +253,67 @@ impl<T> NoConversion for &ArrayProbe<T> {
     fn convert(&self) -> Option<Result<usize, String>> {
         None
     }
+}
+
+#[allow(unused_imports)]
+use crate::engine::{DefaultProbe, NoDefault, ViaDefault};
+
+// --- growing a data block in place, if the library offers such a method under one of its usual names (an inherent
+// method wins over this fallback trait): a refused or accepted append must leave a block of at most 255 bytes ---------
+trait NoGrowth {
+    fn extend_from_slice(&mut self, _bytes: &[u8]) {}
+    fn try_extend_from_slice(&mut self, _bytes: &[u8]) {}
+}
+impl NoGrowth for Data<'_> {}
+
+/// Err = a way to obtain a data block / frame that breaks the 255-byte invariant or the codec
+fn api_probes() -> Result<Vec<&'static str>, String> {
+    let mut offered = vec![];
+    if let Some(d) = (&DefaultProbe::<Data<'static>>(std::marker::PhantomData)).make() {
+        offered.push("Data: Default");
+        let f = Frame::new(Address(1), MsgType(2), d);
+        let text = f.to_bytes();
+        if Frame::from_bytes(&text).ok().as_ref() != Some(&f) {
+            return Err(format!("a frame around Data::default() encodes as {} and does not decode back", show_bytes(&text)));
+        }
+    }
+    if let Some(f) = (&DefaultProbe::<Frame<'static>>(std::marker::PhantomData)).make() {
+        offered.push("Frame: Default");
+        let text = f.to_bytes();
+        if text != ref_encode(f.address().0, f.message_type().0, f.data()) || Frame::from_bytes(&text).ok().as_ref() != Some(&f) {
+            return Err(format!("Frame::default() encodes as {} which is not the documented encoding of its fields / does not decode back", show_bytes(&text)));
+        }
+    }
+    for (start, extra) in [(250usize, 10usize), (255, 1), (0, 256), (200, 300), (255, 0), (100, 155)] {
+        for which in 0..2 {
+            let mut d = Data::try_new(vec![0x11u8; start]).map_err(|e| format!("try_new({start}) failed: {e}"))?;
+            let add = vec![0x22u8; extra];
+            let r = catch(std::panic::AssertUnwindSafe(|| {
+                if which == 0 {
+                    let _ = d.extend_from_slice(&add);
+                } else {
+                    let _ = d.try_extend_from_slice(&add);
+                }
+            }));
+            let _ = r; // refusing by panic is a refusal
+            let len = d.get().len();
+            if len > 255 {
+                return Err(format!(
+                    "after {}(&[..{extra} bytes]) on a block of {start} bytes the block holds {len} bytes; placed in a frame its length byte reads {}",
+                    ["extend_from_slice", "try_extend_from_slice"][which],
+                    len % 256
+                ));
+            }
+            if len != start && len != start + extra {
+                return Err(format!("after appending {extra} bytes to a block of {start} bytes the block holds {len} bytes"));
+            }
+            let f = Frame::new(Address(9), MsgType(0), d);
+            if Frame::from_bytes(&f.to_bytes()).ok().as_ref() != Some(&f) {
+                return Err(format!("a block grown from {start} by {extra} bytes no longer survives the codec"));
+            }
+        }
+    }
+    Ok(offered)
 }
 
 /// (array length, None = no conversion offered / Some(Ok(block length)) / Some(Err(panic)))
@@ -453,6 +518,30 @@ pub fn run(ctx: &Ctx) {
         ctx.part_done("static-array-conversions", true, json!({"array_lengths_probed": [0, 1, 4, 5, 16, 255, 256, 300, 65536], "conversion_offered_for": offered}));
     }
 
+    // other public ways to a data block or frame, as far as the library offers them (probed at compile time)
+    {
+        let mut st = Stats::new();
+        st.evals(14);
+        match catch(api_probes) {
+            Ok(Ok(offered)) => {
+                st.nontrivial_enumerated(12);
+                ctx.part_done("api-probes", true, json!({"probed": ["Data: Default", "Frame: Default", "Data::extend_from_slice", "Data::try_extend_from_slice"], "offered_by_this_tree": offered, "what": "whatever of these exists must keep blocks at <= 255 bytes and frames decodable"}));
+            }
+            Ok(Err(m)) => {
+                ctx.fail("api-probes", json!({}), m);
+            }
+            Err(p) => {
+                ctx.fail("api-probes", json!({}), format!("panic in a probed constructor / append method: {p}"));
+            }
+        }
+        ctx.merge("api-probes", st);
+    }
+
+    // the codec with a logger installed (what the library logs must not change what it does)
+    crate::engine::with_logging(|| {
+        run_generated(ctx, "frame+logging", ctx.tier.pick(30_000, 300_000), frame_strategy, |c, st| check_frame(c, st));
+    });
+
     // the codec used from the destructor of a thread-local value while a thread shuts down (a connection object that
     // says goodbye when its thread ends): it must work there like anywhere else
     par_range(ctx, "codec-during-thread-teardown", 24, |i, st| {
@@ -479,6 +568,11 @@ pub fn replay(part: &str, case: &Value) -> Result<(), String> {
     let mut st = Stats::new();
     match part {
         "oversize-lines" => Ok(()),
+        "api-probes" => catch(api_probes).map_err(|p| format!("panic in a probed constructor / append method: {p}"))?.map(|_| ()),
+        "frame+logging" => {
+            let c: FrameCase = serde_json::from_value(case.clone()).map_err(|e| format!("bad case: {e}"))?;
+            crate::engine::with_logging(|| check_frame(&c, &mut st))
+        }
         "static-array-conversions" => {
             for (n, r) in static_array_conversions() {
                 if let Some(Ok(len)) = r {
